@@ -34,6 +34,10 @@ SCENARIOS = {
     "same-var-line-then-slice": [("t", "HH", 4), ("t", "HH", [0, 3])],
     "copy-single-lines": [("t", "HH", 0), ("p", "HH", 4)],
     "three-threads": [("t", "HH", [0, 3]), ("t", "HH", [2, 5]), ("t", "HV", [1, 4])],
+    # three loads of ONE variable (two of them wait at its lock while the first is inside), with index arrays that have gaps
+    "three-same-var-arrays": [("t", "HH", [0, 3]), ("t", "HH", ("a", [0, 4])), ("t", "HH", ("a", [1, 3]))],
+    "three-same-var-mixed": [("t", "HH", ("a", [4, 0])), ("t", "HH", 2), ("p", "HH", ("a", [1, 4]))],
+    "two-arrays": [("t", "HH", ("a", [0, 2, 4])), ("t", "HH", ("a", [1, 3]))],
     "three-threads-copy": [("t", "HH", [0, 2]), ("p", "HH", [3, 5]), ("p", "HV", [0, 5])],
 }
 
@@ -127,6 +131,8 @@ def setup_shared():
 
 
 def rows_of(sel):
+    if isinstance(sel, tuple) and sel[0] == "a":
+        return list(sel[1])
     return sel if isinstance(sel, int) else slice(sel[0], sel[1])
 
 
